@@ -174,6 +174,7 @@ def forbidden_hits():
     for f in glob.glob(os.path.join(LEAN, "F3", "**", "*.lean"), recursive=True) + \
             glob.glob(os.path.join(LEAN, "Driver", "*.lean")):
         body = strip_comments(open(f).read())
+        body = re.sub(r'"(?:[^"\\\n]|\\.)*"', '""', body)  # string literals are not proof text
         for i, line in enumerate(body.splitlines(), 1):
             if FORBIDDEN.search(line):
                 hits.append("%s: %s" % (os.path.relpath(f, VERIF), line.strip()))
